@@ -44,8 +44,18 @@ INFOS = [b'{"scales":[]}', b'{}',
          b'[{"key":"s0","size":[1,1,1],"chunk_sizes":[[1,1,1]],"encoding":'
          b'"raw","resolution":[1,1,1],"voxel_offset":[0,0,0]}]}']
 
+# contents that look like a container themselves: a gzip member, a zlib
+# stream, the magic numbers alone, a gzip member followed by other bytes
+_GZ = gzip.compress(b"inner payload", mtime=0)
+MAGIC_CONTENTS = [_GZ, _GZ + b"tail", _GZ[:3], _GZ[:10], b"\x1f\x8b",
+                  b"\x1f\x8b\x08\x00" + bytes(20), b"x\x9c" + bytes(6),
+                  b"x\x9c\x03\x00\x00\x00\x00\x01", b"\x1f", b"\x8b\x1f"]
 content_st = st.one_of(st.binary(max_size=48), st.just(b""),
-                       st.binary(min_size=200, max_size=400))
+                       st.binary(min_size=200, max_size=400),
+                       st.sampled_from(MAGIC_CONTENTS),
+                       st.builds(lambda m, b: m + b,
+                                 st.sampled_from(MAGIC_CONTENTS),
+                                 st.binary(max_size=20)))
 
 
 def chunk_rel(key, cc, flat):
